@@ -322,7 +322,9 @@ func (c *columnKey) Apply(chunk commit.Chunk, r *commit.Reader) {
 			}
 			fill.Remove(uint32(offset))
 			c.lock.Lock()
-			delete(c.seek, string(data[offset]))
+			if at, ok := c.seek[string(data[offset])]; ok && at == uint32(r.Offset) {
+				delete(c.seek, string(data[offset])) // unless another row has taken the key over meanwhile
+			}
 			c.lock.Unlock()
 		}
 	}
